@@ -592,7 +592,7 @@ def r08_5(prog, rep):
                 continue
             for mt, nn in wraps:
                 mname = mt.split(".")[-1].split("->")[-1]
-                if not re.fullmatch(r"(this_|nu_)?m|mon|month", mname):
+                if not re.fullmatch(r"(\w*_)?m|\w*mon\w*", mname):       # m, this_m, nu_m, new_m, mon, month: however the month counter is called
                     continue
                 tested = False
                 for a in cond_atoms(c, True) + cond_atoms(c, False):
